@@ -13,4 +13,9 @@ def run(tier):
         for v in r["violations"] or []:
             if v["kind"] == "assert" and v["id"].startswith("C09."):
                 c.handle("hub", e, v, replay=False)
+    # hub part: one step of every hub operation (mDNS report, state update, register, ...) leaves a SHIP ID the application
+    # supplied for a service untouched (the ship layer compares against exactly that stored value)
+    import hubstep
+    c.assumptions.append("hub step (H_Hub_Step, shared with C10/C01): arbitrary hub state with a service whose SHIP ID was supplied by the application; no hub operation - in particular no mDNS report carrying another identifier - changes it")
+    hubstep.run_hub(c, ["H_Hub_Step"], ("C09.",))
     return c.finish()
